@@ -117,6 +117,22 @@ def response_recipes(tmpdir):
             r.delete_cookie("b")
             return r
         out["cookies"] = cookies
+        # constructor headers that meet the class's own required / default headers in another spelling (folding vs replacing
+        # must be the same on both sides); streaming classes with an empty producer
+        def sse(hs):
+            if mod is W:
+                return mod.SendEventResponse(iter([{"data": "x"}]), 200, hs)
+
+            async def gen():
+                yield {"data": "x"}
+            return mod.SendEventResponse(gen(), 200, hs)
+        out["sse_plain"] = lambda: sse(None)
+        out["sse_cache_lower"] = lambda: sse({"cache-control": "no-store"})
+        out["sse_ctype_lower"] = lambda: sse({"content-type": "text/plain", "X-Extra": "1"})
+        out["sse_exact_case"] = lambda: sse({"Cache-Control": "private"})
+        out["text_ctype_upper"] = lambda: mod.PlainTextResponse("t", 200, {"CONTENT-TYPE": "text/x"})
+        out["json_clen"] = lambda: mod.JSONResponse({"a": 1}, 200, {"Content-Length": "999", "content-type": "application/x"})
+        out["redirect_hdrs"] = lambda: mod.RedirectResponse("/t", 302, {"Location": "/other", "X-A": "1"})
         out["file"] = lambda: mod.FileResponse(p, chunk_size=16)
         out["file_dl"] = lambda: mod.FileResponse(p, download_name="dl.bin")
         return out
